@@ -29,6 +29,40 @@ def history_prefix(d, seed, n):
   return applied
 
 
+REMOVALS = ("RemoveRecord", "BulkRemoveRecord", "RemoveTable", "RemoveColumn")
+
+
+def _c10(d, s0, s1, uas):
+  only_removals = all(u[0] in ("RemoveRecord", "BulkRemoveRecord", "RemoveTable") for u in uas)
+  return F.check_removed_refs(d.e, s0, s1, only_removals)
+
+
+# invariants evaluated after every successful bundle: pid -> f(doc, snapshot before, snapshot after, actions)
+INV = {
+  "C09": lambda d, s0, s1, uas: F.check_meta(d.e),
+  "C10": _c10,
+  "C11": lambda d, s0, s1, uas: F.check_twoway(d.e),
+  "C12": lambda d, s0, s1, uas: F.check_summaries(d.e),
+}
+
+
+def run_invariants(d, uas, want):
+  """apply one bundle; returns (applied, [(pid, msg)])"""
+  s0 = F.snap(d.e)
+  try:
+    d.apply(*uas)
+  except Exception:
+    return False, []
+  s1 = F.snap(d.e)
+  out = []
+  for pid in want:
+    if pid in INV:
+      r = INV[pid](d, s0, s1, uas)
+      if r:
+        out.append((pid, r))
+  return True, out
+
+
 def make_body(base, mode, first_kind, nacts, size1, size2, want, restore=True):
   # first_kind "K1" fixes the first action's kind; "K1+K2" also fixes the second action's kind
   ks = first_kind.split("+")
@@ -43,12 +77,25 @@ def make_body(base, mode, first_kind, nacts, size1, size2, want, restore=True):
     if mode == "one":
       for i in range(nacts):
         uas.append(F.gen_action(h, d, "a%d." % i, pools1 if i == 0 else pools_n))
-      applied, out = F.run_bundle_oracles(d, uas, want)
+      if set(want) & set(INV):
+        applied, out = run_invariants(d, uas, want)
+      else:
+        applied, out = F.run_bundle_oracles(d, uas, want)
       applied_any = applied
       for pid, msg in out:
         viol.append({"pid": pid, "msg": msg, "bundles": [uas]})
       return {"nontrivial": applied_any, "violations": viol, "sample": {"mode": mode, "bundle": uas, "applied": applied}}
     # mode == "seq": each action its own bundle; then undo the whole history in reverse
+    if set(want) & set(INV):
+      for i in range(nacts):
+        ua = F.gen_action(h, d, "a%d." % i, pools1 if i == 0 else pools_n)
+        uas.append(ua)
+        applied, out = run_invariants(d, [ua], want)
+        applied_any = applied_any or applied
+        for pid, msg in out:
+          viol.append({"pid": pid, "msg": "after %s: %s" % (ua[0], msg), "bundles": [[u] for u in uas]})
+      return {"nontrivial": applied_any, "violations": viol,
+              "sample": {"mode": mode, "bundles": [[u] for u in uas], "applied": applied_any}}
     s_init = F.snap(d.e)
     undos = []
     for i in range(nacts):
@@ -126,6 +173,11 @@ def replay(witness, want):
       pass
   out = []
   bundles = witness["bundles"]
+  if set(want) & set(INV):
+    for b in bundles:
+      _, res = run_invariants(d, b, want)
+      out += res
+    return out
   if len(bundles) == 1:
     _, res = F.run_bundle_oracles(d, bundles[0], want)
     return res
